@@ -961,8 +961,39 @@ def unchanged_but_lists(c):
             z3.And(0 <= i, i < o.vlen(k)), v.value(k, i) == o.value(k, i))))))))
 
 
-for _c in [itervalues, keys_c, values_c]:
+Pair = HeapClass('OPair', 'record', ncells=2)
+Pair.fields.update({'0': VAL, '1': VAL})
+PairList = HeapClass('OPairList', 'list', e=REF(Pair))
+ALL += [Pair, PairList]
+
+
+def setup_items(eng, st, variant=None):
+    d = setup_vals(eng, st, variant)
+    eng.pair_list_class = PairList
+    return d
+
+
+def items_list(c):
+    r = c.result
+    if not isinstance(r, SRef):
+        return [('returns a list', z3.BoolVal(False))]
+    m = z3.Int('m')
+    n = c.g('$gen:iteritems:out_n')
+    el = c.f(r, 'elems')
+    return [('the list holds the (key, value) pairs iteritems(multi) yields, in order', z3.And(
+        r.t >= c.old.alloc, c.f(r, 'len') == n,
+        z3.ForAll([m], z3.Implies(z3.And(0 <= m, m < n), z3.And(
+            z3.Select(c.arr(Pair, '0'), z3.Select(el, m)) == z3.Select(c.g('$gen:iteritems:out_0'), m),
+            z3.Select(c.arr(Pair, '1'), z3.Select(el, m)) == z3.Select(c.g('$gen:iteritems:out_1'), m))))))]
+
+
+items_c = Contract('OrderedMultiDict.items', setup=setup_items, requires=pub_req,
+                   ensures=lambda c: [unchanged_but_lists(c)] + restate(c, iteritems, 'iteritems') + items_list(c),
+                   modifies=lambda c: LIST_MOD(c) + [('OPairList', 'elems'), ('OPairList', 'len'), ('OPair', '0'), ('OPair', '1')],
+                   variants=['multi', 'single'])
+for _c in [itervalues, keys_c, values_c, items_c]:
     CONTRACTS[_c.qualname] = _c
+PUBLIC.append(('OrderedMultiDict.items', ['multi', 'single']))
 PUBLIC += [('OrderedMultiDict.itervalues', ['multi', 'single']), ('OrderedMultiDict.keys', ['multi', 'single']),
            ('OrderedMultiDict.values', ['multi', 'single'])]
 
